@@ -1042,6 +1042,26 @@ func c08Once(q string, data []core.SeriesSpec, w core.Window) (ran, nontrivial b
 			return true, true, "fallback-off:" + s, "result differs from the one with fallback enabled: " + d
 		}
 	}
+	// the same two engines with a DebugWriter (every created plan is explained into it)
+	for _, fb := range []bool{true, false} {
+		dc := &core.Case{Q: q, Data: data, W: w, O: core.Opts{Optimizers: "none", Fallback: fb, Debug: true}}
+		d := core.RunEngine(dc, st)
+		want := o
+		if !fb {
+			want = f
+		}
+		if s, dd := engineSymptom(d); s != "" {
+			return true, false, s, fmt.Sprintf("with a DebugWriter (fallback %v): %s", fb, dd)
+		}
+		if (d.Res.CreateErr != "") != (want.Res.CreateErr != "") || d.QueryType != want.QueryType || d.ErrIs["unsupported"] != want.ErrIs["unsupported"] || d.ErrIs["notimplemented"] != want.ErrIs["notimplemented"] {
+			return true, false, "debug-writer:creation", fmt.Sprintf("with a DebugWriter (fallback %v) creation gives (%s, err=%q), without (%s, err=%q)", fb, d.QueryType, d.Res.CreateErr, want.QueryType, want.Res.CreateErr)
+		}
+		if d.Res.CreateErr == "" {
+			if s, dd := core.Diff(want.Res, d.Res, false); s != "" && !(hasK(q) && tieEqual(want.Res, d.Res)) {
+				return true, true, "debug-writer:" + s, "result differs with a DebugWriter: " + dd
+			}
+		}
+	}
 	// decided at creation, from the expression alone: a storage that panics on any access
 	for _, fb := range []bool{true, false} {
 		pc := &core.Case{Q: q, Data: data, W: w, O: core.Opts{Optimizers: "none", Fallback: fb}}
